@@ -663,6 +663,67 @@ def run_points(case, rec):
     rec.sample(info)
 
 
+# ------------------------------------------------------------------ (iii') coverage-guided import (atheris): accepted => invariants
+FUZZ_IMPORTS = ["Crypto.Util.asn1", "Crypto.IO.PEM", "Crypto.IO.PKCS8", "Crypto.PublicKey", "Crypto.PublicKey._openssh", "Crypto.PublicKey.RSA",
+                "Crypto.PublicKey.DSA", "Crypto.PublicKey.ECC", "Crypto.PublicKey._point", "Crypto.PublicKey._edwards", "Crypto.PublicKey._montgomery",
+                "Crypto.PublicKey._nist_ecc", "Crypto.PublicKey._curve"]
+FUZZ_FAMS = ["rsa", "dsa", "ecc"]
+FUZZ_CURVES = [None, "p256", "p521", "ed25519", "ed448", "curve25519", "curve448", "p192"]
+
+
+def fuzz_decode(data):
+    if len(data) < 2:
+        return None
+    return {"fam": FUZZ_FAMS[data[0] % 3], "curve_name": FUZZ_CURVES[data[1] >> 5], "as_str": bool(data[1] & 1), "data": data[2:]}
+
+
+def fuzz_corpus():
+    from .c13 import KEYKINDS, FORMATS, get_key, export
+    out = []
+    for kind in KEYKINDS:
+        fam = get_key(kind)[1]
+        for fidx in range(len(FORMATS[fam])):
+            blob, fmt, kw = export(kind, fidx)
+            if blob is None or kw.get("passphrase"):
+                continue
+            raw = blob if isinstance(blob, bytes) else blob.encode()
+            sel = 0 if kind.startswith("rsa") else 1 if kind.startswith("dsa") else 2
+            cn = 0
+            if fmt in ("raw", "SEC1"):
+                curve = kind.split("-")[1].replace("x25519", "curve25519")
+                cn = FUZZ_CURVES.index(curve) if curve in FUZZ_CURVES else 0
+            out.append(bytes([sel, (cn << 5) | (0 if isinstance(blob, bytes) else 1)]) + raw)
+    return out
+
+
+def run_fuzz_import(case, rec):
+    from Crypto.PublicKey import RSA, DSA, ECC
+    fam, data = case["fam"], case["data"]
+    arg = data
+    if case["as_str"]:
+        try:
+            arg = data.decode("ascii")
+        except UnicodeDecodeError:
+            pass
+    if fam == "rsa":
+        f, allowed = (lambda: RSA.import_key(arg)), (ValueError, IndexError, TypeError)
+    elif fam == "dsa":
+        f, allowed = (lambda: DSA.import_key(arg)), (ValueError,)
+    else:
+        kw = {"curve_name": case["curve_name"]} if case["curve_name"] else {}
+        f, allowed = (lambda: ECC.import_key(arg, **kw)), (ValueError,)
+    kind, k = libcall(f, allowed=allowed, bucket="fuzz-import/%s" % fam)
+    if kind == "ok":
+        try:
+            check_key(k, "%s.import_key" % fam.upper())
+        except Violation as v:
+            raise Violation("fuzz-import/%s/%s" % (fam, v.bucket.split("/", 1)[1]), "import_key accepted an encoding of an invalid key: %s" % v.message, fam=fam, data=data)
+        rec.nt(fam, type(k).__name__, getattr(k, "curve", None), k.has_private(), len(data) // 32)
+    rec.event("fuzz-import:%s:%s" % (fam, "accepted" if kind == "ok" else type(k).__name__))
+    if kind == "ok":
+        rec.sample({"fam": fam, "curve": getattr(k, "curve", None), "private": k.has_private(), "bytes": len(data)})
+
+
 CHECKS = [
     Check("generate", run=run_generate, strategy=strat_generate, examples=(128, 2500), shards=(16, 16),
           rule="generate() with entropy tapes: invariants, exact size, FIPS 186-4 margins, determinism"),
@@ -670,6 +731,9 @@ CHECKS = [
           rule="construct() with valid shapes and single-fault corruptions: refused with ValueError, or the returned key satisfies all invariants"),
     Check("import_mutated", run=run_import, strategy=strat_import, examples=(5000, 90000), shards=(16, 16),
           rule="import_key() of DER exports with INTEGER/OCTET/BIT STRING contents mutated: any returned key satisfies all invariants"),
+    Check("fuzz_import", run=run_fuzz_import, decode=fuzz_decode, corpus=fuzz_corpus, examples=(160000, 4000000), shards=(8, 16), max_len=1400,
+          rule="coverage-guided bytes (atheris; empty and seeded corpus of every unencrypted export format) to RSA/DSA/ECC.import_key: "
+               "documented exceptions only, and every key that is returned satisfies all invariants"),
     Check("points", run=run_points, strategy=strat_points, examples=(3000, 40000), shards=(8, 16),
           rule="SEC1 / raw point encodings: out-of-range coordinates, off-curve, infinity, low-order u, non-canonical Edwards encodings refused"),
 ]
